@@ -409,12 +409,14 @@ func (sc *StateContext) GetTrieNode(key datastore.Key, v util.MPTSerializable) e
 		if !ccv.CopyFrom(cv) {
 			panic("state context cache - get trie node copy from failed")
 		}
+		verifObserve(sc, VerifOpGetCached, key, v, nil)
 		return nil
 	}
 
 	// get from MPT
 	if err := sc.getNodeValue(key, v); err != nil {
 		// fmt.Println("get node value error", err)
+		verifObserve(sc, VerifOpGetMiss, key, v, err)
 		return err
 	}
 
@@ -422,6 +424,7 @@ func (sc *StateContext) GetTrieNode(key datastore.Key, v util.MPTSerializable) e
 	if cv, ok := statecache.Cacheable(v); ok {
 		sc.Cache().Set(key, cv)
 	}
+	verifObserve(sc, VerifOpGetTrie, key, v, nil)
 	return nil
 }
 
@@ -436,6 +439,7 @@ func (sc *StateContext) InsertTrieNode(key datastore.Key, node util.MPTSerializa
 		sc.Cache().Set(key, vn)
 	}
 
+	verifObserve(sc, VerifOpInsert, key, node, nil)
 	return k, nil
 }
 
@@ -446,6 +450,7 @@ func (sc *StateContext) DeleteTrieNode(key datastore.Key) (datastore.Key, error)
 	}
 
 	sc.Cache().Remove(key)
+	verifObserve(sc, VerifOpDelete, key, nil, nil)
 	return k, nil
 }
 
